@@ -197,6 +197,75 @@ def work(task):
     return {"cov": cov, "viol": viol}
 
 
+def as_buffer(data, sw, kind):
+    """The same window handed over as another bytes-like / buffer type."""
+    import array
+
+    if kind == "bytearray":
+        return bytearray(data)
+    if kind == "memoryview":
+        return memoryview(data)
+    code = {1: "b", 2: "h", 4: "i"}[sw]
+    if kind == "array":
+        a = array.array(code)
+        a.frombytes(data)
+        return a
+    import numpy as np
+
+    return np.frombuffer(data, dtype={1: np.int8, 2: np.int16, 4: np.int32}[sw]).copy()
+
+
+def large_windows(rep):
+    """Large rows: windows longer than 8192 / 65536 samples whose parts differ in level, and windows given as
+    bytearray / memoryview / array / numpy buffers with odd sample counts."""
+    AEV = lib()["AEV"]
+
+    def judge(window, sw, ch, sel, thr, data, tag):
+        ms = mean_square(window, sel if ch > 1 else None, ch)
+        db = exact_db(ms)
+        exp = expected(ms, db, thr)
+        rep.add("evaluations")
+        rep.add("large_rows_not_exhaustive")
+        if exp is None:
+            rep.add("ambiguous_skipped")
+            return
+        try:
+            got = bool(AEV(thr, sw, ch, use_channel=sel).is_valid(data))
+        except Exception as exc:
+            got = "raised %r" % (exc,)
+        if exp:
+            rep.add("distinct_nontrivial")
+        if got != exp:
+            rep.violation("window-large %s sw=%d ch=%d sel=%r thr=%r" % (tag, sw, ch, sel, thr),
+                          "%s: is_valid gives %r; exact energy %.9f dB vs threshold %r means %r" % (tag, got, float(db), thr, exp),
+                          {"kind": "winL"})
+
+    for sw in (1, 2, 4):
+        top = 2 ** (8 * sw - 1) - 1
+        loud, quiet = max(100, top // 3), 3
+        for ch in (1, 2):
+            for (na, va, nb, vb) in ((8192, quiet, 200, loud), (16384, loud, 1, 0), (8191, quiet, 2, loud), (65536, quiet, 777, loud),
+                                     (8192, loud, 8192, quiet), (40000, quiet, 25537, loud)):
+                window = [tuple([va - k for k in range(ch)])] * na + [tuple([vb] * ch)] * nb
+                data = encode(window, sw)
+                for sel in ([None] if ch == 1 else [None, "mix", 0, -1]):
+                    ms = mean_square(window, sel if ch > 1 else None, ch)
+                    e = float(exact_db(ms))
+                    for thr in (e - 0.5, e + 0.5, 20 * __import__("math").log10(max(va, 1)) + 0.2):
+                        judge(window, sw, ch, sel, thr, data, "%d x %d + %d x %d" % (na, va, nb, vb))
+        # other buffer types, odd and even sample counts, a tail that differs from the rest
+        for ch in (1, 2):
+            for n in (1, 2, 3, 5, 8):
+                window = [tuple([3] * ch)] * (n - 1) + [tuple([loud] * ch)]
+                data = encode(window, sw)
+                ms = mean_square(window, None, ch)
+                e = float(exact_db(ms))
+                for kind in ("bytearray", "memoryview", "array", "numpy"):
+                    buf = as_buffer(data, sw, kind)
+                    for thr in (e - 1, e + 1):
+                        judge(window, sw, ch, None, thr, buf, "%s of %d samples" % (kind, n))
+
+
 def run(prop, tier):
     lib()
     rep = common.Report(prop, tier, "bounded-exhaustive enumeration of windows over a sample alphabet x thresholds x channel "
@@ -220,6 +289,7 @@ def run(prop, tier):
                        "all tuples over the per-width alphabet (full alphabet for <=3 values per window, reduced beyond)")
     rep.cov["bounds"] = {"widths": [1, 2, 4], "channels": [1, 2, 3], "window_samples": "1..3" if quick else "1..4",
                          "thresholds": (QUICK_THR if quick else FIXED_THR) + ["exact energy", "exact energy +-1e-6"]}
+    large_windows(rep)
     for part in common.pmap(work, tasks):
         rep.merge(part)
     rep.cov["states"] = rep.cov.get("windows", 0)
@@ -233,6 +303,10 @@ def run(prop, tier):
 
 def replay(case):
     AEV = lib()["AEV"]
+    if case["kind"] == "winL":
+        rep = common.Report("C07", "quick", "")
+        large_windows(rep)
+        return rep.violations[0][1] if rep.violations else None
     if case["kind"] == "sel":
         ok = selector_valid(case["sel"], case["ch"])
         try:
